@@ -209,3 +209,39 @@ def sc(n):
 
 def hx(b):
     return bytes(b).hex() if len(b) else "-"
+
+
+# ------------------------------------------------------------------ structured operands (shared by the curve checks)
+def structured_scalars(rng, n_random=4):
+    """scalars < l whose 64-bit limbs follow a pattern: a small low limb under non-zero high limbs, zero middle limbs,
+    a single high bit - a shortcut that looks at one limb (or at the low bytes) of a scalar answers these wrongly"""
+    out = set()
+    for low in (0, 1, 2, 4, 8, 16, 255, 2 ** 32, 2 ** 63, 2 ** 64 - 1):
+        for hi in (2 ** 64, 2 ** 128, 2 ** 192, 2 ** 251, 3 * 2 ** 64, (2 ** 60 + 1) * 2 ** 64):
+            out.add((low + hi) % L)
+        for _ in range(n_random):
+            out.add((low + (rng.getrandbits(188) << 64)) % L)
+    out |= {2 ** 64 - 1, 2 ** 64, 2 ** 128 - 1, 2 ** 128, 2 ** 192, 2 ** 252, L - 8, L - 2 ** 64, 8 + 2 ** 64}
+    return sorted(out)
+
+
+_EXTREME = []
+
+
+def extreme_y_points():
+    """canonical points of large order whose y is as close as possible to p (and to 0): compressed bytes"""
+    if not _EXTREME:
+        for ys in (range(P - 1, P - 60, -1), range(0, 40)):
+            got = 0
+            for y in ys:
+                x = recover_x(y, 0)
+                if x is None or x == "negzero":
+                    continue
+                pt = (x, y)
+                if mul(8, pt) == O:
+                    continue
+                _EXTREME.append(compress(pt))
+                got += 1
+                if got >= 14:
+                    break
+    return list(_EXTREME)
